@@ -246,6 +246,75 @@ fn scenario(saturated: bool) -> ScenFn {
     })
 }
 
+/// An abandoned consumer next to a waiting one: whatever the abandoned consumer was about to take (or took) must
+/// reach the consumer that is still waiting - at once, or after the abandoned lease has expired.
+fn bystander_scenario() -> ScenFn {
+    scen!(|cx| {
+        let a = cx.api.clone();
+        must!(cx, "setup:create-topic", { let a = a.clone(); async move { a.create_topic(T0).await } });
+        must!(cx, "setup:create-sub", { let a = a.clone(); async move { a.create_sub(S0, T0, 10, None).await } });
+        let kind = cx.choose("victim", 2);
+        let k = cx.choose("abandon-after-polls-since-the-publish", 6);
+        let a2 = a.clone();
+        let victim = cx.spawn("client:1-victim", async move {
+            if kind == 0 {
+                let _ = a2.pull(S0, 1, false).await;
+            } else {
+                let (tx, r) = a2.streaming_pull(first_stream_req(S0, 1)).await;
+                if let Ok(mut st) = r {
+                    let _keep = tx;
+                    while let Ok(Some(_)) = st.message().await {}
+                }
+            }
+        });
+        let was = cx.freeze(true);
+        let q = cx.quiesce().await;
+        cx.freeze(was);
+        tryv!(q);
+        let got: std::sync::Arc<std::sync::Mutex<Option<String>>> = Default::default();
+        let (a3, g2) = (a.clone(), got.clone());
+        let bystander = cx.spawn("client:2-bystander", async move {
+            let r = a3.pull(S0, 1, false).await;
+            *g2.lock().unwrap() = Some(match r { Ok(v) => format!("OK({})", v.len()), Err(c) => format!("{:?}", c) });
+        });
+        let was = cx.freeze(true);
+        let q = cx.quiesce().await;
+        cx.freeze(was);
+        tryv!(q);
+        if victim.is_finished() || bystander.is_finished() {
+            return ScenarioOut::viol("setup/consumer-returned-early", "a consumer of an empty subscription returned".to_string());
+        }
+        let p0 = cx.polls_of("client:1-victim");
+        let a4 = a.clone();
+        cx.spawn("client:0-publisher", async move { a4.publish(T0, vec![(b"m".to_vec(), vec![])]).await.is_ok() });
+        if k < 5 {
+            tryv!(cx.quiesce_until_polls("client:1-victim", p0 + k as u32).await);
+        } else {
+            tryv!(cx.quiesce().await);
+        }
+        cx.abort_now(&victim).await;
+        tryv!(cx.quiesce().await);
+        let case = format!("victim={} abandoned {} polls after the publish", ["blocking Pull", "StreamingPull"][kind], k);
+        let sleeping = |when: &str, st: Option<Stats>| -> Option<ScenarioOut> {
+            let st = st?;
+            if !bystander.is_finished() && st.backlog > 0 {
+                return Some(ScenarioOut::viol("wedged/waiting-consumer-sleeps-over-backlog", format!("{}: {}: {} message(s) sit in the backlog while the other consumer keeps waiting", case, when, st.backlog)));
+            }
+            None
+        };
+        if let Some(v) = sleeping("at quiescence", tryv!(cx.stats(S0).await)) { return v; }
+        tryv!(cx.advance_ms(1000).await);
+        if let Some(v) = sleeping("one second later", tryv!(cx.stats(S0).await)) { return v; }
+        tryv!(cx.advance_ms(10_000 + SLACK_MS as u64).await);
+        if let Some(v) = sleeping("after the abandoned lease expired", tryv!(cx.stats(S0).await)) { return v; }
+        let r = got.lock().unwrap().clone();
+        if r.as_deref() != Some("OK(1)") {
+            return ScenarioOut::viol("lost-message", format!("{}: the consumer that kept waiting ended up with {:?} 11 s after the publish", case, r));
+        }
+        ScenarioOut { sample: Some(case), ..ScenarioOut::ok(format!("victim={} k={}", kind, k)) }
+    })
+}
+
 pub fn units(thorough: bool) -> Vec<Unit> {
     let d = if thorough { 2 } else { 1 };
     vec![
@@ -255,6 +324,13 @@ pub fn units(thorough: bool) -> Vec<Unit> {
             Bounds::new(d),
             ExecCfg::default(),
             scenario(false),
+        ),
+        explore_unit(
+            "crash/next-to-a-waiting-consumer",
+            "a blocking Pull / StreamingPull is parked on a subscription next to another blocking Pull; one message is published; the first consumer disappears k polls later (every k); the message must reach the consumer that keeps waiting, at once or after the abandoned lease expired",
+            Bounds::new(d + 1),
+            ExecCfg::default(),
+            bystander_scenario(),
         ),
         explore_unit(
             "crash/saturated",
